@@ -22,7 +22,8 @@ func (a c37Addr) String() string { return fmt.Sprintf("node%d/addr%d", a.node, a
 func c37Run(r *simkit.Run) {
 	nnodes := r.Draw("nodes", 1, 3)
 	naddrs := r.Draw("addrs_per_node", 1, 3)
-	concurrent := r.Flag("concurrent_clients")
+	mode := r.Draw("clients_mode", 0, 2) // 0 one client; 1 concurrent clients on disjoint addresses; 2 concurrent clients on the same addresses
+	concurrent := mode > 0
 
 	var addrs []c37Addr
 
@@ -190,6 +191,12 @@ func c37Run(r *simkit.Run) {
 		parts[i%nclients] = append(parts[i%nclients], i)
 	}
 
+	if mode == 2 { // everybody works on every address: joins, re-joins and leaves of one address race
+		for c := range parts {
+			parts[c] = all
+		}
+	}
+
 	for c := 0; c < nclients; c++ {
 		c := c
 		if len(parts[c]) == 0 {
@@ -205,6 +212,34 @@ func c37Run(r *simkit.Run) {
 	}
 
 	r.Sched(simkit.SchedOpts{MaxSteps: 2000000, Stick: r.DrawStick()})
+
+	if mode == 2 {
+		// which member of an address is left depends on the order of the racing calls: the address table itself is
+		// taken as the outcome (it must name a member that was joined), and everything else - lookups, traversal,
+		// lengths, per-node lists - must be consistent with it
+		r.Do("outcome", func() {
+			for k := range present {
+				delete(present, k)
+			}
+
+			for i, a := range addrs {
+				m, found := pool.Get(a.udp)
+				if !found {
+					continue
+				}
+
+				var g int
+
+				if _, err := fmt.Sscanf(m.Name()[strings.Index(m.Name(), "-gen"):], "-gen%d", &g); err != nil || g < 1 || g > gen || !strings.HasPrefix(m.Name(), a.String()+"-gen") {
+					r.Fail("lookup-by-address", "foreign-member", "after racing joins/leaves Get(%s) returned %q, which was never joined under that address", a, m.Name())
+				}
+
+				present[i] = g
+			}
+		})
+		r.Probe("same_address_race")
+	}
+
 	r.Do("final-check", func() { check("after all clients finished") })
 }
 
@@ -214,7 +249,7 @@ func init() {
 		Run:         c37Run,
 		Real:        []string{"quicmemberlist.membersPool (Set, Remove, Get, Exists, MembersLen, Len, Traverse, per-node lists)", "util.ShardedMap"},
 		Stub:        []string{"verif-tagged exported wrapper around the unexported pool (scratch copy only)", "memberlist gossip itself is not run"},
-		Rule:        "each run draws 1-3 nodes with 1-3 addresses each and a history of joins, re-joins and leaves: sequentially (the whole table is compared with a presence model after every step) or by 2-3 concurrent clients working on disjoint addresses of possibly the same node (compared at quiescence). distinct = event-log hash",
+		Rule:        "each run draws 1-3 nodes with 1-3 addresses each and a history of joins, re-joins and leaves: sequentially (the whole table is compared with a presence model after every step) by 2-3 concurrent clients working on disjoint addresses of possibly the same node (compared with the model at quiescence), or by 2-3 concurrent clients racing on the same addresses (the address table is taken as the outcome; lookups, traversal, lengths and per-node lists must be consistent with it). distinct = event-log hash",
 		Assumptions: []string{"concurrent clients use disjoint addresses so that the expected table does not depend on the interleaving"},
 	})
 }
